@@ -31,9 +31,42 @@ def _xform(rng, d):
     return ('R', axis, ang)
 
 
-def _cs(ang):
+_CS = {}
+
+
+def _cs(ang, axis=2, dim=3):
+    """cos / sin AS THE IMPLEMENTATION USED THEM: read off the image of a unit vector under operations.rotate of a
+    probe polygon whose start point is the origin (any correctly rounded route to the angle in radians, a table for
+    90 degrees, ... differs from math.cos(math.radians(a)) in the last digit at most; the affine-map property is
+    then checked exactly with THESE values).  They must be the cosine / sine up to rounding, and the probe must be
+    mapped by the rotation matrix they define - otherwise the textbook doubles are used and the disagreement shows."""
     rot = math.radians(float(ang))
-    return F(math.cos(rot)), F(math.sin(rot))
+    ref = (F(math.cos(rot)), F(math.sin(rot)))
+    if dim == 2:
+        axis = 2
+    key = (F(ang), axis, dim)
+    if key in _CS:
+        return _CS[key]
+    res = ref
+    try:
+        from geomdl import BSpline, operations
+        e = [[F(1) if i == j else F(0) for i in range(dim)] for j in range(dim)]
+        c = BSpline.Curve()
+        c.degree = 1
+        c.ctrlpts = [[q(F(0)) for _ in range(dim)]] + [[q(x) for x in v] for v in e]
+        n = dim + 1
+        c.knotvector = [q(F(0))] + [q(F(i, n - 1)) for i in range(n)] + [q(F(1))]
+        r = operations.rotate(c, q(F(ang)), axis=axis)
+        img = [[F(fr(x)) for x in pt] for pt in r.ctrlpts][1:]
+        a, b = {2: (0, 1), 0: (1, 2), 1: (0, 2)}[axis]            # the plane the rotation acts in
+        cc, ss = img[a][a], img[a][b]
+        ok = abs(cc - ref[0]) <= F(1, 10 ** 15) and abs(ss - ref[1]) <= F(1, 10 ** 15) and img[b][a] == -ss and img[b][b] == cc
+        if ok:
+            res = (cc, ss)
+    except Exception:
+        pass
+    _CS[key] = res
+    return res
 
 
 def gen(rng, tier):
@@ -51,7 +84,7 @@ def gen(rng, tier):
         elif x[0] == 'S':
             tail = "S %s" % fr(x[1])
         else:
-            c, s = _cs(x[2])
+            c, s = _cs(x[2], x[1], d['dim'])
             tail = "R %d %s %s" % (x[1], fr(c), fr(s))
         line = "xform %s %s %s" % (KO.KIND[d['kind']], S.args(d), tail)
         out.append(Case('xform', line, dict(shape=d, x=list(x), inplace=inplace)))
@@ -83,7 +116,7 @@ def _pointmap(x, origin):
         return lambda pt: [a + b for a, b in zip(pt, x[1])]
     if x[0] == 'S':
         return lambda pt: [a * x[1] for a in pt]
-    c, s = _cs(x[2])
+    c, s = _cs(x[2], x[1], len(origin))
     axis = x[1]
 
     def rot(pt):
